@@ -62,6 +62,20 @@ Definition set_exp (e : entry) (x : option Z) : entry :=
 Definition renew_lease (e : entry) (now : Z) : entry :=
   if e_lease e =? 0 then e else set_exp e (Some (now + e_lease e)).
 
+(* isAESGCM *)
+Definition s_AES : str := [x41; x45; x53].
+Definition s_AESGCM : str := [x41; x45; x53; x47; x43; x4d].
+Definition is_aesgcm (p : str) : bool := bytes_eqb p s_AES || bytes_eqb p s_AESGCM.
+(* sessionHasUsableKey: the key a resumption can install: KeyInfo != nil,
+   len(Data) == 32, isAESGCM(Protocol) *)
+Definition usable_key (e : entry) : option bytes :=
+  match e_key e with
+  | Some k => if is_aesgcm (k_proto k) && (lenN (k_data k) =? 32)%N then Some (k_data k) else None
+  | None => None
+  end.
+Definition has_usable_key (e : entry) : bool :=
+  match usable_key e with Some _ => true | None => false end.
+
 (* ---- the two maps ------------------------------------------------------ *)
 Definition id_is (id : str) (e : entry) : bool := bytes_eqb (e_id e) id.
 Definition find_sess (id : str) (l : list entry) : option entry := find (id_is id) l.
@@ -245,7 +259,7 @@ Definition client_action (c : cache) (now : Z) (sid tag addr : str) (cmd : optio
       match addr, cmd with
       | _ :: _, Some cm =>
           match lookup_by_command c now tag addr cm with
-          | Some e => AResume (e_id e)
+          | Some e => if has_usable_key e then AResume (e_id e) else AFull
           | None => AFull
           end
       | _, _ => AFull
@@ -264,7 +278,7 @@ Definition client_handshake (c : cache) (now : Z) (sid tag addr : str) (cmd : op
       match addr, cmd with
       | _ :: _, Some cm =>
           match lookup_by_command c now tag addr cm with
-          | Some e => resume_session c now e p
+          | Some e => if has_usable_key e then resume_session c now e p else full_auth c now tag addr p
           | None => full_auth c now tag addr p
           end
       | _, _ => full_auth c now tag addr p
